@@ -206,7 +206,7 @@ def main_check(prop, tier, seed, collect=False):
                     bad, info = replay_file(prop, os.path.join("regress", fn))
                 except Exception as exc:
                     print(f"HARNESS-ERROR replay {fn}: {exc!r}")
-                    traceback.print_exc()
+                    traceback.print_exc(file=sys.stdout)
                     return 2
                 if bad:
                     lines.append(f"VIOLATION property={prop} replay=regress/{fn}")
@@ -219,7 +219,7 @@ def main_check(prop, tier, seed, collect=False):
             bad, info = replay_file(prop, kf["reproducer"])
         except Exception as exc:
             print(f"HARNESS-ERROR known-finding replay {kf['id']}: {exc!r}")
-            traceback.print_exc()
+            traceback.print_exc(file=sys.stdout)
             return 2
         if bad:
             known_lines.append(f"KNOWN-FINDING: property={prop} {kf['id']}: {kf['what']}")
